@@ -247,3 +247,28 @@ Definition C08_history_level_theorems :=
    C08_silent_after_end,
    C08_ends_on_same_token_request).
 Print Assumptions C08_history_level_theorems.
+
+(* ---- round 7: the model's transport constants and message-ID successor are the translated source's
+   (Gen/c03_constants.v <- numbers/constants.py TransportTuning, microseconds = seconds * 10^6; Gen/c14_message_id.v <- MessageManager._next_message_id) *)
+From Verif Require Gen.c03_constants Gen.c14_message_id.
+From Verif Require Proofs.C08Tie.
+Theorem C08_exchange_lifetime_is_source :
+  QArith_base.Qeq (QArith_base.inject_Z EXCHANGE_LIFETIME_US) (QArith_base.Qmult (c03_constants.EXCHANGE_LIFETIME c03_constants.default_transport_tuning) (QArith_base.inject_Z 1000000)).
+Proof. exact C08Tie.exchange_lifetime_is_source. Qed.
+Print Assumptions C08_exchange_lifetime_is_source.
+Theorem C08_empty_ack_delay_is_source :
+  QArith_base.Qeq (QArith_base.inject_Z EMPTY_ACK_DELAY_US) (QArith_base.Qmult (c03_constants.tt_EMPTY_ACK_DELAY c03_constants.default_transport_tuning) (QArith_base.inject_Z 1000000)).
+Proof. exact C08Tie.empty_ack_delay_is_source. Qed.
+Print Assumptions C08_empty_ack_delay_is_source.
+Theorem C08_ack_timeout_is_source :
+  QArith_base.Qeq (QArith_base.inject_Z ACK_TIMEOUT_US) (QArith_base.Qmult (c03_constants.tt_ACK_TIMEOUT c03_constants.default_transport_tuning) (QArith_base.inject_Z 1000000)).
+Proof. exact C08Tie.ack_timeout_is_source. Qed.
+Print Assumptions C08_ack_timeout_is_source.
+Theorem C08_max_retransmit_is_source :
+  MAX_RETRANSMIT = c03_constants.tt_MAX_RETRANSMIT c03_constants.default_transport_tuning.
+Proof. exact C08Tie.max_retransmit_is_source. Qed.
+Print Assumptions C08_max_retransmit_is_source.
+Theorem C08_next_message_id_is_source :
+  forall mid, c14_message_id.next_message_id {| c14_message_id.mmids_message_id := mid |} = Ok ({| c14_message_id.mmids_message_id := (1 + mid) mod 65536 |}, mid).
+Proof. exact C08Tie.next_message_id_is_source. Qed.
+Print Assumptions C08_next_message_id_is_source.
